@@ -39,3 +39,11 @@ def fill(chk, NA):
         'every combination of 42 documents (hand-built minimal interchanges and all suite sources, as shipped and count-clean) x 4 layouts x up to 5 delimiter triples x every single and pairwise IEA01/GE01/SE01/HL01 defect (plus HL shifts, reversals, swaps) x all 12 option combinations is run through the real x12norm.main() by file path; each output is compared with an independent tokenizer and recount for content preservation, one-segment-per-line layout, byte-for-byte idempotence and count repair',
         'trusted: mc/ref.py (tokenizer, nesting, recount) and the truth() count in mc/c20.py; bounded by the document catalogue, not all readable interchanges',
         'exhaustive bounded enumeration of inputs x defects x option configurations on the real command-line entry point', 'E1', 'DESIGN.md 3/C20')
+    chk('C18', 'model_checking',
+        'every sequence of length <=2 over 56 events (8 documents x validate / context-iterate x fresh / reused params / reused maps, plus XML->X12), thorough: every sequence of length 3 over a 24-event sub-alphabet, each executed on the real code in a pristine forked child; every event is compared byte for byte (documented timestamp / control-number fields masked) with the same event alone in a new interpreter under PYTHONHASHSEED 0-3, whose four baselines must themselves be identical; mutable default arguments are identity-checked after every sequence',
+        'trusted: the fresh-interpreter baseline, the mask of exactly the exempted fields, and that a fork of an import-only process is pristine (checked by the length-1 sequences)',
+        'exhaustive enumeration of bounded processing histories on the real code against a fresh-process reference', 'E1', 'DESIGN.md 3/C18')
+    chk('C05', 'exploration',
+        'every document of the shared corpora (conformant documents of every map, one target per C03 fault kind per map, all {1,2,3}^3 interchange x group x set shapes with and without a faulty set, the suite sources, every single structural mutation of three base documents) is validated with the acknowledgement sink; verdict, error tree (read through the visitor protocol) and the parsed acknowledgement are compared with an independent recount from the source text',
+        'trusted: the reference tokenizer and the tree reader; group/set naming and totals are only compared when the envelope nests properly and every ST carries identifier and control number; AK404 equality is left to C06 when the value contains an acknowledgement delimiter',
+        'exhaustive enumeration of bounded document families on the real validator with a recount oracle', 'E3', 'DESIGN.md 3/C05')
